@@ -20,6 +20,10 @@ Faithful to the code that exists:
   inf/nan or numba would raise), `_refine_portal` is `while True` without a cap — the model takes
   fuel and reports `Err.fuel`; `_find_penetration_info` is capped by `iterations >
   max_iterations` and the fuel `maxIter + 2` is proved sufficient (`findPenInfoLoop_fuel`).
+* `_contact_position` is the function after the repair /repo 045c18e (degenerate-portal branch:
+  `abs(coords_sum) < EPSILON` inside the fallback returns the midpoint of the pre-images of the
+  portal vertex closest to the origin); the function before that commit, which divided by zero
+  there (finding F-mpr-degenerate-portal-nan), is kept as `contactPosition_asIs_before_fix`.
 * every case analysis reports the path taken.
 -/
 import D3.Model.Vec
@@ -55,7 +59,7 @@ structure Portal (α : Type) where
 plus ghost data for the theorems and the correspondence check:
 `exit`: 0 tolerance exit, 1 iteration-cap exit of `_find_penetration_info`, 2 touch, 3 segment;
 `tri`: branch of `point_to_triangle` (0 A, 1 B, 2 AB, 3 C, 4 AC, 5 BC, 6 face), `cpos`: branch of
-`_contact_position` (0 main, 1 fallback), `touch`: `abs(depth) < EPSILON` fired,
+`_contact_position` (0 main, 1 fallback, 2 degenerate portal), `touch`: `abs(depth) < EPSILON` fired,
 `portal`: final portal, `n`: last portal direction, `w`: last support point, `iters`: expansions -/
 structure PenInfo (α : Type) where
   depth : α
@@ -308,7 +312,8 @@ def comb4 (w : α × α × α × α) (x0 x1 x2 x3 : V3 α) : V3 α :=
    w.1 * x0.y + w.2.1 * x1.y + w.2.2.1 * x2.y + w.2.2.2 * x3.y,
    w.1 * x0.z + w.2.1 * x1.z + w.2.2.1 * x2.z + w.2.2.2 * x3.z⟩
 
-/-- the normalised weights `_contact_position` uses, and its branch (0 main, 1 fallback) -/
+/-- the normalised weights `_contact_position` uses when it reaches its division, and the branch
+(0 main, 1 fallback); `divZero` exactly when the selected sum is zero -/
 def contactWeights (v0 v1 v2 v3 dir : V3 α) : Except Err ((α × α × α × α) × Nat) :=
   let w := baryMain v0 v1 v2 v3
   let s := sum4 w
@@ -322,12 +327,45 @@ def contactWeights (v0 v1 v2 v3 dir : V3 α) : Except Err ((α × α × α × α
   if isZero s then .error .divZero
   else .ok ((w.1 / s, w.2.1 / s, w.2.2.1 / s, w.2.2.2 / s), r.2.2)
 
-/-- `_contact_position` -/
-def contactPosition (P : Portal α) (dir : V3 α) : Except Err (V3 α × Nat) := do
+/-- `_contact_position` as it was before the repair 045c18e (kept for the before/after theorems):
+when both weight sums vanish (degenerate portal) the weights are divided by zero — `divZero`,
+NaN in the implementation (finding F-mpr-degenerate-portal-nan) -/
+def contactPosition_asIs_before_fix (P : Portal α) (dir : V3 α) : Except Err (V3 α × Nat) := do
   let r ← contactWeights P.p0.v P.p1.v P.p2.v P.p3.v dir
   let x := comb4 r.1 P.p0.a P.p1.a P.p2.a P.p3.a
   let y := comb4 r.1 P.p0.b P.p1.b P.p2.b P.p3.b
   pure (V3.smul 0.5 (x + y), r.2)
+
+/-- the scan of the repaired `_contact_position` for the portal vertex closest to the origin:
+`closest = 1; for i in range(2, 4): if v[i].dot(v[i]) < v[closest].dot(v[closest]): closest = i`
+(first minimum, strict `<`).  Returns the row and its index. -/
+def closestRow (p1 p2 p3 : SP α) : SP α × Nat :=
+  let c : SP α × Nat := if V3.dot p2.v p2.v < V3.dot p1.v p1.v then (p2, 2) else (p1, 1)
+  if V3.dot p3.v p3.v < V3.dot c.1.v c.1.v then (p3, 3) else c
+
+/-- `barycentric_coordinates /= coords_sum` and the two weighted sums -/
+def contactCombine (P : Portal α) (w : α × α × α × α) (s : α) (br : Nat) : Except Err (V3 α × Nat) :=
+  if isZero s then .error .divZero
+  else
+    let wn : α × α × α × α := (w.1 / s, w.2.1 / s, w.2.2.1 / s, w.2.2.2 / s)
+    let x := comb4 wn P.p0.a P.p1.a P.p2.a P.p3.a
+    let y := comb4 wn P.p0.b P.p1.b P.p2.b P.p3.b
+    .ok (V3.smul 0.5 (x + y), br)
+
+/-- `_contact_position` (after 045c18e).  Branch: 0 main weights, 1 fallback weights,
+2 degenerate portal (`abs(coords_sum) < EPSILON` inside the fallback: the midpoint of the two
+pre-images of the portal vertex closest to the origin is returned, nothing is divided). -/
+def contactPosition (P : Portal α) (dir : V3 α) : Except Err (V3 α × Nat) :=
+  let w := baryMain P.p0.v P.p1.v P.p2.v P.p3.v
+  let s := sum4 w
+  if s < EPS then
+    let w' := baryFallback P.p1.v P.p2.v P.p3.v dir
+    let s' := sum4 w'
+    if absS s' < EPS then
+      let r := closestRow P.p1 P.p2 P.p3
+      .ok (V3.smul 0.5 (r.1.a + r.1.b), 2)
+    else contactCombine P w' s' 1
+  else contactCombine P w s 0
 
 /-- `_penetration_info`: `(depth, penetration_direction (not yet normalised), position)` and the
 branches (triangle region, contact branch, touch) -/
